@@ -5,6 +5,7 @@ import ast
 import itertools
 
 from ..errors import AnalysisError
+from ..astutil import clone
 from ..model import src, walk_local, docstring_free
 from ..affine import affine, NotAffine
 from .. import names as N
@@ -231,26 +232,53 @@ def r3_index(ctx):
         ok_reset = len(resets) == 1 and not any(resets[0] in list(ast.walk(lp)) for lp in col_loops)
         ctx.check(ok_reset and len(trues) >= 1 and len(sets) == len(resets) + len(trues), 'R3', at, run_.qualname, 'flag-discipline',
                   'the flag is cleared once per row before the cells and only ever set to True inside the row')
-        for t in trues:
-            # the if (or elif) whose body sets the flag
-            owner = None
-            for n in walk_local(run_.node):
-                if isinstance(n, ast.If) and t in n.body:
-                    owner = n
-            if owner is None:
-                ctx.violation('R3', f'{run_.module.relpath}:{t.lineno}', run_.qualname, 'flag-unconditional', 'the flag is set unconditionally')
-                continue
-            fm = G._formula(F.fold(ctx, G.substitute(owner.test, G.single_assignments(run_.node)), run_))
-            naming = {
-                'TokenCategory.BARLINES == token.category': 'bar',
-                'TokenCategory.is_child(child=token.category, parent=TokenCategory.CORE)': 'core',
-                f'nonempty({idx})': 'notfirst',
-            }
-            eq, cex, unknown = G.compare(fm, lambda v: v['bar'] or (v['core'] and not v['notfirst']), naming)
-            ctx.check(eq and not unknown, 'R3', f'{run_.module.relpath}:{owner.lineno}', run_.qualname, 'measure-start-guard',
-                      'a row opens a measure iff it holds a barline, or core material while no measure is open yet',
-                      f'the measure-start guard `{G.show(fm)[:160]}` differs from `BARLINES or (under CORE and index empty)`'
-                      + (f' at {cex}' if cex else ''))
+        # on every path through the cells of a row that builds a node for an ordinary token: the flag is set exactly when the
+        # token is a barline, or core material while no measure is open yet (whatever the branching / helper structure)
+        import itertools
+        bar_a = 'TokenCategory.BARLINES == token.category'
+        core_a = 'TokenCategory.is_child(child=token.category, parent=TokenCategory.CORE)'
+        nf_a = f'nonempty({idx})'
+        expected = lambda v: v[bar_a] or (v[core_a] and not v[nf_a])
+        bad, n_paths = [], 0
+        for lp in col_loops:
+            tokvar = None
+            for sp in symex.sym_paths(lp.body, limit=20000, fi=run_):
+                if sp.end == 'raise':
+                    continue
+                adds = [e for e in sp.events if isinstance(e.expr, ast.Call) and isinstance(e.expr.func, ast.Attribute)
+                        and e.expr.func.attr == 'add_node' and src(e.expr.func.value) == 'self._tree']
+                if not adds:
+                    continue        # a header / spine-operator cell: handled by its own helper
+                n_paths += 1
+                sets_flag = any(e.kind == 'assign' and e.target == [flag] and isinstance(e.expr, ast.Constant) and e.expr.value is True
+                                for e in sp.events)
+                # the token of this cell is whatever add_node received: atoms are phrased on it
+                tok = F.bind_args(adds[-1].expr, ctx.prog.func(f'{N.DOCUMENT}.MultistageTree.add_node'), True).get('token')
+                if tok is None:
+                    raise AnalysisError(f'{run_.loc}: the token handed to add_node is not recognised')
+                fm = F.fold(ctx, F._conj_node(sp), run_) if sp.conds else None
+                f_ = G._formula(fm) if fm is not None else ('const', True)
+                # built from the tree, never from text: symbolic names such as `error@exc` do not survive a re-parse
+                cat_node = ast.Attribute(value=clone(tok), attr='category', ctx=ast.Load())
+                tc = lambda m: ast.Attribute(value=ast.Name(id='TokenCategory', ctx=ast.Load()), attr=m, ctx=ast.Load())
+                ren = {G._cmp_atom(cat_node, ast.Eq(), tc('BARLINES'))[1]: bar_a,
+                       f'TokenCategory.is_child(child={src(cat_node)}, parent=TokenCategory.CORE)': core_a,
+                       f'TokenCategory.is_child({src(cat_node)}, TokenCategory.CORE)': core_a}
+                f_ = G.map_atoms(f_, lambda a_: ('atom', ren[a_]) if a_ in ren else None)
+                ats = G.atoms_of(f_)
+                named = [a_ for a_ in (bar_a, core_a, nf_a)]
+                free = [a_ for a_ in ats if a_ not in named]
+                if len(free) > 14:
+                    raise AnalysisError(f'{run_.loc}: too many conditions on a path through the cells of a row')
+                for bits in itertools.product([False, True], repeat=3):
+                    v = dict(zip(named, bits))
+                    possible = any(G.evaluate(f_, dict(v, **dict(zip(free, fb)))) for fb in itertools.product([False, True], repeat=len(free)))
+                    if possible and bool(expected(v)) != sets_flag:
+                        bad.append(('sets' if sets_flag else 'does not set') + f' the flag for bar={v[bar_a]}, core={v[core_a]}, '
+                                   f'measure open={v[nf_a]}')
+        ctx.check(not bad and n_paths > 0, 'R3', at, run_.qualname, 'measure-start-guard',
+                  f'a row opens a measure iff it holds a barline, or core material while no measure is open yet ({n_paths} paths through the cells)',
+                  f'a path through the cells of a row {sorted(set(bad))[0] if bad else ""}: differs from `BARLINES or (under CORE and index empty)`')
     d = ctx.prog.func(f'{N.DOCUMENT}.Document.__init__')
     ok = any(isinstance(n, ast.Assign) and src(n.targets[0]) == 'self.measure_start_tree_stages' and src(n.value) == '[]'
              for n in walk_local(d.node))
